@@ -215,6 +215,12 @@ class NanTaint:
                     T.add(norm(a.target))
             elif isinstance(a, ast.AnnAssign) and a.value is not None:
                 assign(a.target, self.tainted(fi, a.value, frozenset(T), sg), T)
+            elif isinstance(a, ast.Expr) and isinstance(a.value, ast.Call) and isinstance(a.value.func, ast.Attribute) and a.value.func.attr.endswith("_") \
+                    and not a.value.func.attr.startswith("_") and isinstance(a.value.func.value, (ast.Name, ast.Attribute)) and norm(a.value.func.value) not in ("torch", "np"):
+                # in-place tensor method as a statement:  x.masked_fill_(isnan(x), c) / x.nan_to_num_()  scrub x;  x.add_(t) taints it
+                recv, meth = a.value.func.value, a.value.func.attr
+                as_value = ast.Call(func=ast.Attribute(value=recv, attr=meth[:-1] if meth[:-1] in SANITIZE else meth, ctx=ast.Load()), args=a.value.args, keywords=a.value.keywords)
+                assign(recv, self.tainted(fi, as_value, frozenset(T), sg), T)
             return frozenset(T)
 
         init = frozenset(tainted_params)
